@@ -206,18 +206,28 @@ Fixpoint den1 (call : query -> venv -> jv -> result) (q : query) (rho : venv) (v
       | (ws, None) => ([VArr ws], None)
       | (_, Some x) => ([], Some x)
       end
-  | QReduce src x init upd =>
+  | QReduce src p init upd =>
+      (* a pattern that does not match a source output raises its error inside the fold *)
       bind (go init rho v) (fun s0 =>
         let '(ws, sx) := go src rho v in
-        match reduce_fold (fun w acc => go upd ((x, BV w) :: rho) acc) ws s0 with
+        match reduce_fold (fun w acc => match pmatch nt p w with
+                                        | inl bs => go upd (bs ++ rho) acc
+                                        | inr e => ([], Some (XErr e)) end) ws s0 with
         | inr e => ([], Some e)
         | inl acc => match sx with Some e => ([], Some e) | None => ([acc], None) end
         end)
-  | QForeach src x init upd ext =>
+  | QForeach src p init upd ext =>
       bind (go init rho v) (fun s0 =>
         let '(ws, sx) := go src rho v in
-        seq (foreach_fold (fun w acc => go upd ((x, BV w) :: rho) acc)
-               (fun w u => match ext with Some e => go e ((x, BV w) :: rho) u | None => ([u], None) end)
+        seq (foreach_fold (fun w acc => match pmatch nt p w with
+                                        | inl bs => go upd (bs ++ rho) acc
+                                        | inr e => ([], Some (XErr e)) end)
+               (fun w u => match ext with
+                           | Some e => match pmatch nt p w with
+                                       | inl bs => go e (bs ++ rho) u
+                                       | inr e => ([], Some (XErr e))    (* not reached: the update raised e on this w and had no output *)
+                                       end
+                           | None => ([u], None) end)
                ws s0)
             ([], sx))
   | QLabel l body =>
@@ -246,6 +256,7 @@ Fixpoint den1 (call : query -> venv -> jv -> result) (q : query) (rho : venv) (v
   | QIndexQ t q => bind (go q rho v) (fun k => bind (go t rho v) (fun w => of_sum (n_index nt w k)))
   | QSlice t a b =>
       bind (go a rho v) (fun s => bind (go b rho v) (fun e => bind (go t rho v) (fun w => of_sum (n_slice nt w e s))))
+  | QCall1 f a => bind (go a rho v) (fun w => of_sum (n_fn1 nt f v w))
   | QBindP src p body =>
       bind (go src rho v) (fun w => match pmatch nt p w with
                                     | inl bs => go body (bs ++ rho) v
